@@ -10,9 +10,10 @@ import random
 
 import z3
 
-from vf.symx import (Engine, SInt, rebind, smin, smax, srange, toint,
+from vf.symx import (Engine, SBool, SInt, rebind, smin, smax, srange, toint,
                      unformat)
 from vf.common import real
+from vf.dcsym import quiet
 
 PID = "C19"
 M = "dclab.http_utils"
@@ -250,7 +251,102 @@ def run_two(eng, p):
     return "ok"
 
 
+# ------------------------------------------------------------ header parsing
+def _sint_text(x, *a):
+    """`int()` on a string with symbolic characters (decimal digits, blanks
+    around them ignored, anything else is a ValueError like in Python)"""
+    from vf.symx import SStr, sint
+    if not isinstance(x, SStr):
+        return sint(x, *a)
+    items = x.strip().items
+    if not items:
+        raise ValueError("invalid literal for int(): ''")
+    val = z3.IntVal(0)
+    for c in items:
+        if isinstance(c, str):
+            if not c.isdigit():
+                raise ValueError("invalid literal for int(): %r" % (x,))
+            code = z3.IntVal(ord(c))
+        else:
+            code = toint(c)
+            if not bool(SBool(z3.And(code >= 48, code <= 57))):
+                raise ValueError("invalid literal for int()")
+        val = val * 10 + (code - 48)
+    return SInt(val)
+
+
+class HeaderServer(SymServer):
+    """as SymServer, plus the RFC 7233 response headers: `content-length`
+    (size of the body sent), `content-range` for partial content, `etag`;
+    the total size is the decimal text `digits` (symbolic digit values)"""
+
+    def __init__(self, L, digits):
+        SymServer.__init__(self, L)
+        self.digits = digits
+
+    def get(self, url, headers=None, **kw):
+        from vf.symx import SStr
+        resp = SymServer.get(self, url, headers=headers, **kw)
+        total = SStr.digits(self.digits)
+        resp.headers = {"etag": '"abcdef123456"'}
+        if resp.status_code == 206:
+            first, last = self.requests[-1]
+            first, last = z3.simplify(first), z3.simplify(last)
+            assert z3.is_int_value(first) and z3.is_int_value(last), \
+                "header case: only concrete ranges are served"
+            Le = toint(self.L)
+            # the harness only serves ranges inside the resource here
+            Engine.cur.assume(SBool(last < Le))
+            resp.headers["content-range"] = SStr.lift(
+                "bytes %d-%d/" % (first.as_long(), last.as_long())) + total
+            resp.headers["content-length"] = str(
+                last.as_long() - first.as_long() + 1)
+        elif resp.status_code == 200:
+            resp.headers["content-length"] = total
+        return resp
+
+
+def run_header(eng, p):
+    """the real `_parse_header` / `length` / `etag` / seek(SEEK_END) / read
+    on a file object created by the real `__init__`, the size of the resource
+    being a decimal text of `k` symbolic digits in the response headers"""
+    from vf.dcsym import shadow
+    k = p["digits"]
+    ds = [eng.int("d%d" % i) for i in range(k)]
+    for i, d in enumerate(ds):
+        eng.assume((d >= (1 if (i == 0 and k > 1) else 0)) & (d <= 9))
+    Le = z3.IntVal(0)
+    for d in ds:
+        Le = Le * 10 + toint(d)
+    L = eng.int("L")
+    eng.assume(SBool(toint(L) == Le))
+
+    class SessionCache:
+        def get_session(self, url):
+            return HeaderServer(L, ds)
+    ns = shadow(M, np=npshim, range=srange, min=smin, max=smax, os=os,
+                int=_sint_text, session_cache=SessionCache())
+    for k_, v_ in list(ns.items()):
+        if isinstance(v_, (set, dict, list)) and not k_.startswith("__"):
+            ns[k_] = type(v_)()
+    f = ns["HTTPFile"]("http://verif.invalid/x.rtdc", chunk_size=p["cs"],
+                       keep_chunks=2)
+    with quiet():
+        got = f.length
+        eng.prove(toint(got) == toint(L),
+                  "header: length == size of the resource")
+        eng.prove(z3.BoolVal(f.etag == "abcdef123456"), "header: etag")
+        f.seek(0, os.SEEK_END)
+        eng.prove(toint(f.tell()) == toint(L),
+                  "header: position after seek(0, SEEK_END) == size")
+    return "ok"
+
+
 def run_case(name, params):
+    if params.get("header"):
+        eng = Engine(timeout_ms=20000)
+        eng.explore(lambda e: run_header(e, params))
+        return eng.stats()
     if params.get("two"):
         eng = Engine(timeout_ms=20000)
         eng.explore(lambda e: run_two(e, params))
@@ -316,6 +412,9 @@ def cases(tier, seed):
                          Lmax=5 if tier == "quick" else 7, over=2,
                          ops=["seek_set", "read", "seek_set", "read"],
                          pre=None)))
+    for k in (1, 2, 3, 4) if tier == "quick" else (1, 2, 3, 4, 5, 6, 7):
+        out.append(("header: size text of %d digits" % k,
+                    dict(header=True, digits=k, cs=3)))
     random.Random(seed).shuffle(out)
     return out
 
@@ -352,7 +451,12 @@ class RFCServer:
             return _Resp(200, self.blob, hdr)
         if first >= L:
             return _Resp(416, b"<416!!>", hdr)
-        return _Resp(206, self.blob[first:last + 1], hdr)
+        part = self.blob[first:last + 1]
+        hdr = dict(hdr)
+        hdr["content-length"] = str(len(part))
+        hdr["content-range"] = "bytes %d-%d/%d" % (
+            first, first + len(part) - 1, L)
+        return _Resp(206, part, hdr)
 
     def close(self):
         pass
@@ -443,6 +547,8 @@ def replay(case, params, v):
     vals = v.get("values") or {}
     if "L" not in vals:
         return {"reproduced": False, "key": "no-model", "detail": str(v)}
+    if params.get("header"):
+        return replay_header(params, vals)
     if params.get("two"):
         return replay_two(params, vals)
     sc = _scenario(params, vals)
@@ -452,6 +558,39 @@ def replay(case, params, v):
                 "detail": "scenario %r passes on the real code" % (sc,)}
     return {"reproduced": True, "key": classify(fails[0], sc),
             "detail": fails[0] + " | scenario=%r" % (sc,)}
+
+
+def replay_header(p, vals):
+    HTTPFile = real(M, "HTTPFile")
+    L = int(vals["L"])
+    blob = bytes((7 * i + 3) % 251 for i in range(L))
+    f = HTTPFile("http://verif.invalid/x.rtdc", chunk_size=max(p["cs"], 64),
+                 keep_chunks=2)
+    f.session = RFCServer(blob)
+    fails = []
+    with quiet():
+        try:
+            if f.length != L:
+                fails.append("HTTPFile.length is %r for a resource of %d "
+                             "bytes" % (f.length, L))
+            if f.etag != "abcdef123456":
+                fails.append("etag %r" % (f.etag,))
+            f.seek(0, os.SEEK_END)
+            if f.tell() != L:
+                fails.append("position %r after seek(0, SEEK_END) on %d "
+                             "bytes" % (f.tell(), L))
+            f.seek(0)
+            data = f.read()
+            if data != blob:
+                fails.append("read() returned %d bytes of a resource of %d "
+                             "bytes" % (len(data), L))
+        except Exception as e:
+            fails.append("header parsing raised %r (size %d)" % (e, L))
+    if not fails:
+        return {"reproduced": False, "key": "not-reproduced",
+                "detail": "size %d is parsed correctly" % L}
+    return {"reproduced": True, "key": "_parse_header|wrong-length",
+            "detail": fails[0]}
 
 
 def replay_two(p, vals):
